@@ -191,10 +191,47 @@ def run(tier):
     res = {p: vlib.PropResult(p) for p in PROPS}
     d = vlib.rundir("dfirtick")
     g = _gen(tier, d)
-    bindir = vlib.cargo_build("hv_dfir", bins=["run_progs", "compile_check"], timeout=5400)
-    progs = json.load(open(os.path.join(d, "progs.json")))
-    metas = {p["id"]: p for p in progs}
     progs_path, hist_path = os.path.join(d, "progs.json"), os.path.join(d, "hist.json")
+
+    # (4) compile verdicts through dfir_lang's library API, BEFORE rustc sees the generated crate
+    # (compile_check is built without the `progs` feature, i.e. without the generated programs)
+    bindir = vlib.cargo_build("hv_dfir", bins=["compile_check"], timeout=5400)
+    all_progs = json.load(open(progs_path))
+    all_metas = {p["id"]: p for p in all_progs}
+    cv_path = os.path.join(d, "compile.json")
+    p = vlib.run_bin(os.path.join(bindir, "compile_check"), [progs_path, cv_path], timeout=900)
+    if p.returncode != 0:
+        raise vlib.ToolError("compile_check failed: " + p.stderr[-2000:])
+    cv = json.load(open(cv_path))
+    by_base = {}
+    for c in cv:
+        by_base.setdefault(c["base"], []).append(c)
+    ngroups, rejected = 0, set()
+    for base, cs in sorted(by_base.items()):
+        if len(cs) > 1:
+            ngroups += 1
+        verdicts = {c["verdict"]["ok"] for c in cs}
+        rejected |= {c["id"] for c in cs if not c["verdict"]["ok"]}
+        if len(verdicts) > 1:
+            res["C22"].violation("dfirtick/%s/compile-verdict-differs" % all_metas[base]["name"],
+                                 "base and shape variants of %s differ in dfir_lang compile verdict: %s" % (
+                                     all_metas[base]["name"],
+                                     [(all_metas[c["id"]]["name"], c["verdict"]["ok"]) for c in cs]),
+                                 {"verdicts": cs, "texts": {c["id"]: all_metas[c["id"]]["text"] for c in cs}})
+        elif verdicts == {False}:
+            raise vlib.ToolError("generator produced a program that dfir_lang rejects in every shape (%s): %s"
+                                 % (all_metas[base]["name"], cs[0]["verdict"]))
+    if len(rejected) > len(all_progs) // 3:
+        raise vlib.ToolError("dfir_lang rejects %d of %d generated programs" % (len(rejected), len(all_progs)))
+    if rejected:
+        # keep the generated crate buildable: the rejected shapes are reported above and left out
+        e = dict(os.environ)
+        e["VERIF_SEED"] = str(vlib.seed())
+        subprocess.run([sys.executable, GEN, "--tier", tier, "--out", d, "--exclude",
+                        ",".join(str(x) for x in sorted(rejected))], env=e, check=True, stdout=subprocess.PIPE)
+    bindir = vlib.cargo_build("hv_dfir", bins=["run_progs"], features=["progs"], timeout=5400)
+    progs = json.load(open(progs_path))
+    metas = {p["id"]: p for p in progs}
 
     # (2) real runs
     trace = os.path.join(d, "trace.ndjson")
@@ -233,28 +270,6 @@ def run(tier):
         seen_fp.add((prop, fp, pid))
         res[prop].violation(fp, what, {"program": m["name"], "text": m["text"], "events": groups[key],
                                        "mismatch": mm.get((pid, h, step))})
-
-    # (4) compile verdicts through dfir_lang (C22)
-    cv_path = os.path.join(d, "compile.json")
-    p = vlib.run_bin(os.path.join(bindir, "compile_check"), [progs_path, cv_path], timeout=900)
-    if p.returncode != 0:
-        raise vlib.ToolError("compile_check failed: " + p.stderr[-2000:])
-    cv = json.load(open(cv_path))
-    by_base = {}
-    for c in cv:
-        by_base.setdefault(c["base"], []).append(c)
-    ngroups = 0
-    for base, cs in by_base.items():
-        if len(cs) > 1:
-            ngroups += 1
-        verdicts = {c["verdict"]["ok"] for c in cs}
-        if len(verdicts) > 1:
-            res["C22"].violation("dfirtick/%s/compile-verdict-differs" % metas[base]["name"],
-                                 "base and shape variants of %s differ in compile verdict" % metas[base]["name"],
-                                 {"verdicts": cs, "texts": {c["id"]: metas[c["id"]]["text"] for c in cs}})
-        elif verdicts == {False}:
-            # rustc accepted these programs (they are in the built crate): dfir_lang must as well
-            raise vlib.ToolError("compile_check rejects program %s that rustc built: %s" % (metas[base]["name"], cs[0]["verdict"]))
 
     # (5) model checking of the interpreter itself
     r_mc = vlib.tlc(SD, "DfirTickMC", cfg=_mc_cfg(thorough), workers=4 if not thorough else 8,
